@@ -266,7 +266,7 @@ def rule_rank_one(repo, rep):
     else:
       rep.unknown(R, key, site(f, n), 'the metric is also written by %s: '
                   'effect on M^-1 - M0^-1 not derivable' % ast.unparse(n))
-  rep.floor('rank-one update sites in ITML', n_upd, 2)
+  rep.floor('rank-one update sites in ITML', n_upd, 1)
 
 
 # --------------------------------------------------- Bregman update formulas
@@ -858,6 +858,12 @@ def rule_stopping(repo, rep):
 
 
 def check(repo, rep, tier):
+  # two sweeps of the projections, decided as values by interpretation
+  from . import c11b
+  b0 = len(rep.obs)
+  c11b.rule_itml_sweeps(repo, rep)
+  interp_ok = all(o['status'] == 'derived' for o in rep.obs[b0:])
+  b1 = len(rep.obs)
   rule_dual_nonneg(repo, rep)
   rule_rank_one(repo, rep)
   rule_update_formulas(repo, rep)
@@ -865,6 +871,18 @@ def check(repo, rep, tier):
   rule_setup(repo, rep)
   rule_every_constraint_projected(repo, rep)
   rule_stopping(repo, rep)
+  if interp_ok:
+    # the structural rules on the shape of the two projection loops cannot
+    # read every spelling (one fused loop, helper functions, a table of
+    # constraint kinds): where they are merely undecided, the interpreted
+    # sweeps - which exercise step formulas, dual / slack bookkeeping, the
+    # visiting order and the rank-one updates - stand for them
+    sub = ('SIGN:itml-duals-stay-nonnegative', 'R-FORM:itml-bregman-step',
+           'R-FLOW:itml-every-constraint-projected',
+           'R-EFFECT:itml-rank-one-updates-only',
+           'R-FORM:itml-constraint-setup')
+    rep.obs[b1:] = [o for o in rep.obs[b1:]
+                    if not (o['rule'] in sub and o['status'] == 'unknown')]
   # bounds / prior given as integer arrays hold the same numbers
   from . import c06
   fl = len(rep.floors)
